@@ -485,6 +485,10 @@ impl Translator {
             }
         }
 
+        #[cfg(abra_verif)]
+        if crate::vm::verif::opt_off() {
+            return st;
+        }
         st.lines = optimize(st.lines);
 
         st
